@@ -99,11 +99,7 @@ func (c *Ctx) helperAssertGuarded(helper *ssa.Function, ta *ssa.TypeAssert) (str
 	if len(guards) == 0 {
 		return "no initialiser validates or installs " + T.String() + " before filling a guard field", false
 	}
-	for _, e := range edges {
-		if e.Site == nil {
-			continue
-		}
-		F := e.Caller.Func
+	siteOK := func(F *ssa.Function, site ssa.Instruction) bool {
 		okSite := false
 		for _, g := range guards {
 			// the guard field is only assigned inside the validator
@@ -156,9 +152,29 @@ func (c *Ctx) helperAssertGuarded(helper *ssa.Function, ta *ssa.TypeAssert) (str
 			}
 			// the validator block is entered under `guard == nil`; blocking it and cutting the non-nil edges must
 			// make the site unreachable
-			if !reachableBlocks(F, 0, cut, blocked)[e.Site.Block().Index] || blocked[e.Site.Block().Index] && false {
+			if !reachableBlocks(F, 0, cut, blocked)[site.Block().Index] || blocked[site.Block().Index] && false {
 				okSite = true
 			}
+		}
+		return okSite
+	}
+	for _, e := range edges {
+		if e.Site == nil {
+			continue
+		}
+		F := e.Caller.Func
+		okSite := siteOK(F, e.Site)
+		if !okSite {
+			// the call sits in an intermediate helper (a phase split off the guarded function): every call of that
+			// helper must be guarded in its own caller
+			up := c.callersOf(F)
+			all := len(up) > 0
+			for _, e2 := range up {
+				if e2.Site == nil || !siteOK(e2.Caller.Func, e2.Site) {
+					all = false
+				}
+			}
+			okSite = all
 		}
 		if !okSite {
 			return "call of " + FuncName(helper) + " at " + c.Pos(e.Site.Pos()) + " in " + FuncName(F) + " is reachable before the track processors were initialised by a function that validates " + T.String() +
